@@ -2,7 +2,6 @@ package props
 
 import (
 	"fmt"
-	"os"
 	"strings"
 	"time"
 
@@ -692,7 +691,7 @@ func (c *c16) tailRec() {
 	prog := r.Choose(6, "prog")
 	r.MixFingerprint(uint64(depth)<<4 | uint64(prog))
 	r.Fault("stack-limit-8MB")
-	fmt.Fprintf(os.Stderr, "verif-case: C16 tailrec prog=%d depth=%d\n", prog, depth)
+	sim.NoteCase(fmt.Sprintf("C16 tailrec prog=%d depth=%d", prog, depth))
 	var got, want int
 	want = depth % evMod
 	switch prog {
